@@ -144,6 +144,16 @@ def property_obligations(prop):
                 problems=problems, out=out)
 
 
+def coqchk(prop):
+    """thorough tier: re-check Properties/<prop>.vo and everything it depends on with the independent
+    checker and read its context summary (axioms, type-in-type, unsafe fixpoints, assumed positivity)"""
+    rc, out = sh("timeout 3000 coqchk -silent -o -Q theories MQ MQ.Properties.%s" % prop, cwd=COQ, timeout=3100)
+    summary = out[out.find("CONTEXT SUMMARY"):] if "CONTEXT SUMMARY" in out else out[-2000:]
+    clean = (rc == 0 and "* Axioms: <none>" in summary and "type-in-type: <none>" in summary
+             and "unsafe (co)fixpoints: <none>" in summary and "positivity is assumed: <none>" in summary)
+    return clean, " ".join(summary.split())
+
+
 # ---------------------------------------------------------------- checker + harness
 def newest_mtime(paths):
     m = 0
@@ -190,8 +200,19 @@ def run_checker(lines, rename=None, timeout=3000):
         data = "\n".join(rename + l[l.index(" "):] for l in lines) + "\n"
     else:
         data = "\n".join(lines) + "\n"
+    # the extracted functions recurse on lists non-tail-recursively: long streams need a deep stack
+    def _deep_stack():
+        import resource
+        try:
+            resource.setrlimit(resource.RLIMIT_STACK, (resource.RLIM_INFINITY, resource.RLIM_INFINITY))
+        except Exception:
+            try:
+                soft, hard = resource.getrlimit(resource.RLIMIT_STACK)
+                resource.setrlimit(resource.RLIMIT_STACK, (hard, hard))
+            except Exception:
+                pass
     p = subprocess.run([CHECKER], input=data.encode(), stdout=subprocess.PIPE, stderr=subprocess.PIPE,
-                       timeout=timeout)
+                       timeout=timeout, preexec_fn=_deep_stack)
     if p.returncode != 0:
         raise CheckError("checker crashed: " + p.stderr.decode()[-2000:])
     res = []
